@@ -1014,6 +1014,7 @@ impl<'a> Runner<'a> {
     let mut cutoff = false;
     let mut fam_access = [0u64; 5];
     let mut probes = [false; 7];
+    let mut size_probes = [false; 3];
     let mut probe_stale: BTreeSet<Tid> = BTreeSet::new();
     let mut sig_violations: Vec<Violation> = vec![];
     let mut coarse_ignored = false;
@@ -1112,6 +1113,8 @@ impl<'a> Runner<'a> {
             }
           }
           // Reach probes.
+          if exec_stack.len() + 1 >= 5 { size_probes[0] = true; }
+          if in_bu_phase && pending.len() >= 5 { size_probes[1] = true; }
           if in_bu_phase {
             if pending.len() >= 3 { probes[0] = true; }
             if !exec_stack.is_empty() { if prev_completed { probes[1] = true; } else { probes[2] = true; } }
@@ -1152,6 +1155,7 @@ impl<'a> Runner<'a> {
           if exec_stack.last() == Some(t) { exec_stack.pop(); } else { v(&["C17"], "exec-nesting", format!("execution of task {t} ended out of order")); }
           // Early cut-off probe: output equal to the previous output although the task was re-executed.
           if let Some(o) = old[*t].as_ref() { if o.completed && o.out == Some(*out) { cutoff = true; } }
+          if self.ledger[*t].as_ref().map(|e| e.deps.len() >= 6).unwrap_or(false) { size_probes[2] = true; }
           if let (Some(o), Some(nw)) = (old[*t].as_ref(), self.ledger[*t].as_ref()) {
             if o.completed {
               let a: BTreeSet<Target> = o.deps.iter().map(|d| d.target).collect();
@@ -1501,6 +1505,8 @@ impl<'a> Runner<'a> {
     let _ = errors_seen;
     if cutoff { self.stats.hit("probe_early_cutoff"); }
     if builds_started >= 2 { self.stats.hit("probe_several_bottom_up_builds_in_one_session"); }
+    for (i, name) in ["probe_execution_depth_ge5", "probe_bu_queue_ge5", "probe_task_with_ge6_dependencies"].iter().enumerate() { if size_probes[i] { self.stats.hit(name); } }
+    if self.session_no >= 6 { self.stats.hit("probe_sixth_or_later_build_on_instance"); }
     if let SessionKind::BottomUp { pre_require, .. } = kind { if !pre_require.is_empty() && slice.iter().any(|e| matches!(e, Ev::ExecStart { bottom_up: true, .. })) && slice.iter().any(|e| matches!(e, Ev::ExecStart { bottom_up: false, .. })) { self.stats.hit("probe_session_executed_top_down_and_bottom_up"); } }
     for (i, n) in fam_access.iter().enumerate() { self.stats.add(["access_sim_RA", "access_sim_RB", "access_map_MK2", "access_map_MK3", "access_file"][i], *n); }
     if coarse_ignored { self.stats.hit("probe_coarse_ignored_change"); }
